@@ -116,10 +116,73 @@ def run_version(args):
                                  {"version": version, "command": name, "rx": rlab, "k": k}))
                 if stats["sample"] is None and tvals and rvals:
                     stats["sample"] = {"version": version, "command": name, "tx": repr(tvals)[:120], "rx": repr(rvals)[:120]}
+        concurrent_cases(ctx, t, version, viol, stats)
         history_cases(ctx, t, version, viol, stats)
     finally:
         ctx.close()
     return version, viol, stats
+
+
+def pair_call(ctx, t, version, name, cid, tx, rx, tv1, tv2, rv1, rv2):
+    """Two calls of the SAME command with different arguments (keyword form) in flight together: each must emit its own frame
+    (own sequence number, own arguments, in the order of the calls) and get the values of its own response."""
+    loop, gw = ctx.loop, ctx.gw
+    n0 = len(gw.sent)
+    tasks = []
+    for tv in (tv1, tv2):
+        tasks.append(loop.create_task(ctx.ezsp._command(name, **dict(zip(tx.keys(), tv)))))
+    loop.settle()
+    out = None
+    for k, (tv, rv) in enumerate(((tv1, rv1), (tv2, rv2))):
+        if len(gw.sent) < n0 + k + 1:
+            out = out or f"concurrent: call #{k + 1} of two concurrent {name} calls with different arguments emitted no frame of its own"
+            break
+        seq = ctx.seq
+        ctx.seq = (ctx.seq + 1) % 256
+        got = gw.sent[n0 + k][1]
+        want = ezspenv.enc_request_hdr(version, seq, cid) + expected_payload(tx, tv)
+        if got != want:
+            out = out or f"concurrent: call #{k + 1} sent {got.hex()[:60]}, expected {want.hex()[:60]}"
+        try:
+            ctx.ezsp.frame_received(ezspenv.enc_response_hdr(version, seq, cid) + ezspenv.encode_values(rx, rv))
+        except Exception as e:  # noqa
+            out = out or f"concurrent: receive raised {type(e).__name__}: {e}"
+        loop.settle()
+    for k, (task, rv) in enumerate(zip(tasks, (rv1, rv2))):
+        if not task.done():
+            task.cancel()
+            loop.settle()
+            out = out or f"concurrent: call #{k + 1} did not complete on its own response"
+        elif task.cancelled() or task.exception() is not None:
+            out = out or f"concurrent: call #{k + 1} ended with {task.exception() if not task.cancelled() else 'cancellation'!r}"
+        elif not eq_values(rx, task.result(), rv if isinstance(rx, dict) else rv[0]):
+            out = out or f"concurrent: call #{k + 1} returned {task.result()!r:.80}, its response carried {rv!r:.80}"
+    # resynchronise the expected sequence number with what was really sent
+    ctx.seq = (ctx.seq + (len(gw.sent) - n0) - 2) % 256 if len(gw.sent) - n0 != 2 else ctx.seq
+    return out
+
+
+def concurrent_cases(ctx, t, version, viol, stats):
+    cls = ezspenv.handler_class(version)
+    for name, (cid, tx, rx) in cls.COMMANDS.items():
+        if not isinstance(tx, dict) or not tx or name == "invalidCommand":
+            continue
+        txs, rxs = tuples_for(tx, False), tuples_for(rx, False)
+        if not txs or not rxs:
+            continue
+        a = txs[0][1]
+        b = next((tv for _, tv in txs[1:] if expected_payload(tx, tv) != expected_payload(tx, a)), None)
+        if b is None:
+            continue
+        rv1 = rxs[0][1]
+        rv2 = next((rv for _, rv in rxs[1:] if ezspenv.encode_values(rx, rv) != ezspenv.encode_values(rx, rv1)), rv1)
+        msg = pair_call(ctx, t, version, name, cid, tx, rx, a, b, rv1, rv2)
+        stats["calls"] += 2
+        if msg:
+            viol.append((f"C07|concurrent|{name}", f"v{version} {name}: {msg}", {"version": version, "command": name, "history": "concurrent"}))
+            ctx.seq = ctx.h._seq if hasattr(ctx.h, "_seq") else ctx.seq
+            if sum(1 for v in viol if v[0].startswith("C07|concurrent")) > 5:
+                break
 
 
 HISTORY_COMMANDS = ["nop", "version", "getValue", "getEui64", "getConfigurationValue", "echo"]
@@ -309,7 +372,10 @@ def replay(data) -> int:
     if data.get("history"):
         ctx = Ctx(version)
         viol, stats = [], {"calls": 0}
-        history_cases(ctx, t, version, viol, stats)
+        if data["history"] == "concurrent":
+            concurrent_cases(ctx, t, version, viol, stats)
+        else:
+            history_cases(ctx, t, version, viol, stats)
         ctx.close()
         for v in viol:
             print(v[1])
